@@ -43,6 +43,10 @@ class LoopBudgetExceeded(Exception):
     pass
 
 
+class CaseTimeout(Exception):
+    pass
+
+
 # ----------------------------------------------------------------------------------------
 # exact rationals on the wire
 # ----------------------------------------------------------------------------------------
@@ -454,6 +458,14 @@ def safe_case(fn):
                 if j < ctx.pool_cap:
                     ctx.pool[j] = (wrapper, tuple(_copy_arg(x) for x in a), {kk: _copy_arg(v) for kk, v in k.items()})
         poison_allocator(float('nan') if ctx.phase == 'main' else 1e300)
+        # wall-clock watchdog against HARNESS-side run-aways (a search in a predicate, a reference implementation): never a verdict, the case is
+        # counted as a harness exception (verdicts about termination come from the iteration-counting guard only)
+        import signal
+
+        def _alarm(signum, frame):
+            raise CaseTimeout(f'case exceeded the wall-clock watchdog ({fn.__module__}.{fn.__qualname__})')
+        old_handler = signal.signal(signal.SIGALRM, _alarm)
+        signal.alarm(120 if ctx.tier == 'quick' else 900)
         try:
             # every case runs under a loop guard: no `while` loop of the package may spin for ever inside a check, whichever function it is in
             # (once loops have been found spinning in this run the budget shrinks, so that a non-terminating change is reported in seconds)
@@ -477,7 +489,13 @@ def safe_case(fn):
                 ctx.log['first_harness_exception'] = traceback.format_exc()[-1500:]
             if ctx.driver is not None and ctx.driver.p.poll() is not None:
                 ctx.driver.dead = True
+            if isinstance(e, CaseTimeout) and ctx.driver is not None:
+                ctx.driver.dead = True
+                ctx.driver.p.kill()
             return None
+        finally:
+            signal.alarm(0)
+            signal.signal(signal.SIGALRM, old_handler)
     wrapper.__wrapped_case__ = fn
     return wrapper
 
